@@ -13,6 +13,10 @@ Tree shapes
   ("match", scrut, [(pat, e)]) ("lam", [(x, annotated)], body) ("call", f, [args])
   ("gcall", name, [args], explicit_targs, ntparams, prefix_or_None)   -- ntparams=0: not a site
   ("post", e, suffix) ("paren", e) ("wrap", e)
+  ("chain", [(cond, e)], else_e, nested_from)   -- `if c1 {e1} else if c2 {e2} … else {else_e}`; with
+                                                   nested_from = k the continuation from branch k on is
+                                                   written `else { if ck … }` (block-wrapped)
+  ("pid", x, type_text) = identifier pattern of a `let` whose inferred type is not `int`
   patterns: ("pid", x) ("pwild",) ("ptuple", [ps]) ("pobj", [(field, None | subpattern)])
             ("pvar", Ctor, [ps]) ("por", [ps])
 """
@@ -188,7 +192,7 @@ class Gen:
                 self.broke = True
                 return ("raw", "true")
             return ("lit", r.range(0, 9))
-        k = r.below(26)
+        k = r.below(29)
         d = depth - 1
         if k <= 1:
             return ("bin", r.pick(["+", "-", "*"]), self.int_expr(env, d), self.int_expr(env, d))
@@ -288,6 +292,8 @@ class Gen:
             return gc("Main.comb", [self.lam(env, d, 2), gc("Main.id", [self.int_expr(env, d)], 1)], 1)
         if k in (19, 20):
             return self.hidden_placeholder_arg(env, d)
+        if k in (26, 27, 28):
+            return self.branch_join(env, d)
         if k == 21 and self.broken == "underconstrained" and not self.broke:
             # a nested generic call whose type parameter does not occur in its result type: genuinely
             # underconstrained (rejected), also with explicit type arguments on the outer call
@@ -298,6 +304,70 @@ class Gen:
             return gc("Main.pick", [inner, self.int_expr(env, d), ("raw", "true")], 1)
         self.forms.add("method")
         return ("raw2", "Box.mk(", [self.int_expr(env, d)], ").sum()")
+
+    def branch_join(self, env, d):
+        """if / else-if chains (>= 3 branches, written with `else if`) and matches whose later branches
+        can only be typed from a sibling / from the context (`Maybe.Nothing()`, `Process.panic(..)`,
+        un-annotated lambdas), in positions without a contextual hint: un-annotated `let`, `let _ =`,
+        tuple element, argument of a generic call"""
+        r = self.rng
+        mkcond = lambda: ("bin", r.pick(["<", "==", ">="]), self.int_expr(env, d), self.int_expr(env, d))
+        nb = r.range(2, 3)      # number of `if` / `else if` branches before the final else
+
+        def chain(first, later):
+            bs = [(mkcond(), first())]
+            need = False
+            tail = []
+            for i in range(nb):
+                x = later(need_hint=(not need and i == nb - 1) or r.chance(1, 2))
+                tail.append(x)
+            for x in tail[:-1]:
+                bs.append((mkcond(), x))
+            return ("chain", bs, tail[-1], None)
+
+        form = r.below(6)
+        if form <= 1:       # Maybe-typed chain
+            self.forms.add("else-if-chain-maybe")
+            just = lambda: gc("Maybe.Just", [self.int_expr(env, d)], 1)
+            def later(need_hint):
+                if not need_hint:
+                    return just()
+                return gc("Maybe.Nothing", [], 1) if r.chance(2, 3) else gc("Process.panic", [("raw", '"boom"')], ["Maybe<int>"])
+            c = chain(just, later)
+            v = self.fresh()
+            n = str(r.range(0, 9))
+            if form == 0:   # un-annotated let
+                return ("block", [("let", ("pid", v, "Maybe<int>"), c, False)], ("post", ("var", v), ".getOr(" + n + ")"))
+            w = self.fresh()    # tuple element
+            self.forms.add("else-if-chain-in-tuple")
+            return ("block", [("let", ("ptuple", [("pid", v), ("pid", w)]), ("tuple", [c, self.int_expr(env, d)]), None)],
+                    ("bin", "+", ("post", ("var", v), ".getOr(" + n + ")"), ("var", w)))
+        if form <= 3:       # int-typed chain with Process.panic branches
+            self.forms.add("else-if-chain-int")
+            def later(need_hint):
+                return gc("Process.panic", [("raw", '"boom"')], 1) if need_hint else self.int_expr(env, d)
+            c = chain(lambda: self.int_expr(env, d), later)
+            if form == 2:   # argument of a generic call
+                self.forms.add("else-if-chain-generic-arg")
+                return gc("Main.id", [c], 1)
+            w = self.fresh()    # `let _ = chain;` (no hint at all), then an un-annotated let
+            return ("block", [("let", ("pwild",), c, None), ("let", ("pid", w), c, False)], ("var", w))
+        if form == 4:       # lambda-typed chain
+            self.forms.add("else-if-chain-lambda")
+            def lam1(annotated):
+                x = self.fresh()
+                return ("lam", [(x, annotated)], ("bin", "+", ("var", x), self.int_expr(env + [x], d)))
+            c = chain(lambda: lam1(True), lambda need_hint: lam1(not need_hint))
+            fn = self.fresh()
+            return ("block", [("let", ("pid", fn, "(int) -> int"), c, False)], ("call", ("var", fn), [self.int_expr(env, d)]))
+        # match whose arms get the hint of the (annotated) context
+        self.forms.add("match-arms-with-context-hint")
+        x, w, v = self.fresh(), self.fresh(), self.fresh()
+        m = ("match", self.sh_expr(env, d),
+             [(("pvar", "Ci", [("pid", x)]), gc("Maybe.Just", [("var", x)], 1)),
+              (("pvar", "Re", [("pid", w), ("pwild",)]), gc("Maybe.Nothing", [], 1)),
+              (("pvar", "Em", []), gc("Process.panic", [("raw", '"boom"')], ["Maybe<int>"]))])
+        return ("block", [("let", ("pid", v, "Maybe<int>"), m, True)], ("post", ("var", v), ".getOr(" + str(r.range(0, 9)) + ")"))
 
     def hidden_placeholder_arg(self, env, d):
         """generic call with inferred type arguments one of whose arguments is a match / if-else /
@@ -393,16 +463,24 @@ def expr_s(e):
     if k == "bin":
         def opnd(x):
             t = expr_s(x)
-            return f"({t})" if x[0] in ("if", "iflet", "match", "lam", "block", "wrap") else t
+            return f"({t})" if x[0] in ("if", "iflet", "match", "lam", "block", "wrap", "chain") else t
         return f"({opnd(e[2])} {e[1]} {opnd(e[3])})"
     if k == "if":
         return f"if {expr_s(e[1])} {{ {expr_s(e[2])} }} else {{ {expr_s(e[3])} }}"
+    if k == "chain":
+        def go(i):
+            if i == len(e[1]):
+                return "{ " + expr_s(e[2]) + " }"
+            c, b = e[1][i]
+            txt = f"if {expr_s(c)} {{ {expr_s(b)} }} else " + go(i + 1)
+            return "{ " + txt + " }" if (e[3] is not None and i == e[3]) else txt
+        return go(0)
     if k == "iflet":
         return f"if let {pat_s(e[1])} = {expr_s(e[2])} {{ {expr_s(e[3])} }} else {{ {expr_s(e[4])} }}"
     if k == "tuple":
         return "(" + ", ".join(expr_s(x) for x in e[1]) + ")"
     if k == "block":
-        ss = "".join(f"let {pat_s(p)}{': int' if ann else ''} = {expr_s(x)}; " for _, p, x, ann in e[1])
+        ss = "".join(f"let {pat_s(p)}{(': ' + (p[2] if len(p) > 2 else 'int')) if ann else ''} = {expr_s(x)}; " for _, p, x, ann in e[1])
         return "{ " + ss + expr_s(e[2]) + " }"
     if k == "match":
         return "match " + expr_s(e[1]) + " { " + ", ".join(f"{pat_s(p)} -> {expr_s(b)}" for p, b in e[2]) + " }"
@@ -470,6 +548,8 @@ def map_expr(e, f):
         return f((k, e[1], map_expr(e[2], f), map_expr(e[3], f)))
     if k == "if":
         return f((k, map_expr(e[1], f), map_expr(e[2], f), map_expr(e[3], f)))
+    if k == "chain":
+        return f((k, [(map_expr(c, f), map_expr(b, f)) for c, b in e[1]], map_expr(e[2], f), e[3]))
     if k == "iflet":
         return f((k, map_expr(e[1], f), map_expr(e[2], f), map_expr(e[3], f), map_expr(e[4], f)))
     if k == "tuple":
@@ -504,7 +584,7 @@ def rename_name(p, old, new):
     """consistent renaming of the local variable name `old` to `new` in the whole program"""
     def f(e):
         if e[0] in ("var", "pid") and e[1] == old:
-            return (e[0], new)
+            return (e[0], new) + tuple(e[2:])
         if e[0] == "lam":
             return ("lam", [(new if x == old else x, a) for x, a in e[1]], e[2])
         if e[0] == "pobj":      # shorthand `{ f }` binds f: renaming introduces `f as new`
@@ -583,6 +663,37 @@ def annotate(p, chosen):
         if e[0] == "gcall" and e[4]:
             i = cnt["targs"]; cnt["targs"] += 1
             return ("gcall", e[1], e[2], e[3] or ("targs", i) in chosen, e[4], e[5])
+        return e
+    q = dict(p)
+    q["funs"] = [{"name": fn["name"], "params": fn["params"], "body": map_expr(fn["body"], f)} for fn in p["funs"]]
+    return q
+
+
+# ---------------------------------------------------------------- else-if chains (C13)
+
+def chain_sites(p):
+    """(index of chain in traversal order, number of places where the continuation can be wrapped)"""
+    out = []
+    cnt = [0]
+    def f(e):
+        if e[0] == "chain":
+            if e[3] is None and len(e[1]) >= 2:
+                out.append((cnt[0], len(e[1]) - 1))
+            cnt[0] += 1
+        return e
+    for fn in p["funs"]:
+        map_expr(fn["body"], f)
+    return out
+
+
+def nest_else_if(p, which, k):
+    """block-wrap the nested if of chain number `which`: `… else if ck {…} …` -> `… else { if ck {…} … }`"""
+    cnt = [0]
+    def f(e):
+        if e[0] == "chain":
+            i = cnt[0]; cnt[0] += 1
+            if i == which:
+                return ("chain", e[1], e[2], k)
         return e
     q = dict(p)
     q["funs"] = [{"name": fn["name"], "params": fn["params"], "body": map_expr(fn["body"], f)} for fn in p["funs"]]
